@@ -220,6 +220,10 @@ def replay(beh, workdir, seed, stats):
                         acc += sz
                     toks = [toks[starts[a]] for a in range(n)]
                 vals = [val_of(f, t) for t in toks]
+                if f == 'pos' and (seed + step) % 4 == 0:
+                    # coordinates handed over as an integer array (lattice positions): they are coordinates like any other,
+                    # later rigid operations must treat them as real numbers
+                    vals = [np.array([t, t + 1, -t - 2], dtype=np.int64) for t in toks]
                 if so['kind'] == 'atom':
                     if f == 'pos':
                         ro.position = vals[0]
